@@ -2616,6 +2616,31 @@ class Canon(ast.NodeTransformer):
         if fname == "len" and len(node.args) == 1 and isinstance(node.args[0], ast.Call) and ast.unparse(node.args[0].func) in ("np.array", "np.asarray", "numpy.array", "numpy.asarray") \
                 and node.args[0].args and isinstance(node.args[0].args[0], (ast.ListComp, ast.List)) and all(k.arg == "dtype" for k in node.args[0].keywords):
             return self.visit_Call(ast.copy_location(ast.Call(func=node.func, args=[node.args[0].args[0]], keywords=[]), node))
+        # any(E(x) for x in (a, b, ..)) over a display of plain names / attributes  ==>  E(a) or E(b) or ..   (all -> and): same
+        # evaluation order and short-circuit as the generator
+        if fname in ("any", "all") and len(node.args) == 1 and not node.keywords and isinstance(node.args[0], (ast.GeneratorExp, ast.ListComp)) and len(node.args[0].generators) == 1 \
+                and isinstance(node.args[0], ast.GeneratorExp):
+            g_ = node.args[0].generators[0]
+            if not g_.ifs and not g_.is_async and isinstance(g_.target, ast.Name) and isinstance(g_.iter, (ast.Tuple, ast.List)) and 1 <= len(g_.iter.elts) <= 6 \
+                    and all(isinstance(e, (ast.Name, ast.Attribute)) and all(isinstance(y, (ast.Name, ast.Attribute, ast.Load)) for y in ast.walk(e)) for e in g_.iter.elts) \
+                    and not any(isinstance(y, (ast.Lambda, ast.GeneratorExp, ast.ListComp, ast.NamedExpr)) for y in ast.walk(node.args[0].elt)):
+                import copy as _cp
+
+                class _Sub(ast.NodeTransformer):
+                    def __init__(self, name, repl):
+                        self.name, self.repl = name, repl
+
+                    def visit_Name(self, n):
+                        return _cp.deepcopy(self.repl) if n.id == self.name and isinstance(n.ctx, ast.Load) else n
+                vals = [_Sub(g_.target.id, e).visit(_cp.deepcopy(node.args[0].elt)) for e in g_.iter.elts]
+                out_ = vals[0] if len(vals) == 1 else ast.BoolOp(op=ast.Or() if fname == "any" else ast.And(), values=vals)
+                if len(vals) == 1:
+                    out_ = ast.Call(func=ast.Name(id="bool", ctx=ast.Load()), args=[out_], keywords=[])
+                return ast.copy_location(ast.fix_missing_locations(out_), node)
+        # any((A, B, ..)) / all([A, B, ..]) over a display of pure expressions  ==>  A or B or .. / A and B and ..  (as a truth value)
+        if fname in ("any", "all") and len(node.args) == 1 and not node.keywords and isinstance(node.args[0], (ast.Tuple, ast.List)) and 2 <= len(node.args[0].elts) <= 8 \
+                and all(_pure_expr(e) and not isinstance(e, ast.Starred) for e in node.args[0].elts):
+            return ast.copy_location(ast.BoolOp(op=ast.Or() if fname == "any" else ast.And(), values=list(node.args[0].elts)), node)
         # len([E for x in IT])  ==>  len(IT)
         if fname == "len" and len(node.args) == 1 and isinstance(node.args[0], (ast.ListComp, ast.GeneratorExp)) and len(node.args[0].generators) == 1 \
                 and not node.args[0].generators[0].ifs and _pure_expr(node.args[0].elt):
